@@ -25,7 +25,8 @@ Definition is_exit (i : item) : bool := match i with IExit => true | _ => false 
 Inductive spc :=
 | SLoop                       (* top of the loop: about to call get(True, KEEP_ALIVE_INTERVAL) *)
 | SWait (dl : Z)              (* blocked in get, deadline dl *)
-| SGot (i : item)             (* item in hand, before the marker tests *)
+| SGot (i : item)             (* item in hand, before the marker / connected tests *)
+| SChk (i : item)             (* not the exit marker, and `connected` was read as True *)
 | SLog (i : item)             (* (flag set if keep-alive) about to append "Send: ..." to the log *)
 | SLock (i : item)            (* about to take the write lock *)
 | SWrite (i : item)           (* holds the lock, about to write *)
@@ -83,6 +84,7 @@ Inductive action :=
 (* sender *)
 | SGetWait (dl : Z) | SDeq (i : item) | SDeqEmpty | SEnqKA | SSetFlag | SLogAdd (t : text)
 | SLockAcq | SWriteA (b : bytes) | SWriteErr | SLockRel | SSleepStartA (d : Z) | SWake | SExit
+| SCheckConn (b : bool)           (* the sender reads `connected` for an item that is not the exit marker *)
 (* reader *)
 | RRead (chunk : bytes) | RLineStart (l : text) | RLogAdd (t : text) | RGetFlag (b : bool)
 | RClrFlag | RDeliverA (m : msg)
@@ -237,7 +239,7 @@ Section Step.
         end
     | SSetFlag =>
         match spc_ s with
-        | SGot IKA =>
+        | SChk IKA =>
             Some {| now := now s; q := q s; spc_ := SLog IKA; flag := true; lock := lock s;
                     rxport := rxport s; rbuf := rbuf s; rpend := rpend s; rpc_ := rpc_ s;
                     logcap := logcap s; logbuf := logbuf s;
@@ -249,15 +251,22 @@ Section Step.
         end
     | SLogAdd t =>
         match spc_ s with
-        | SGot (ICmd n u) => if teqb t u then Some (add_log s (LSend t) (SLock (ICmd n u)) (rpc_ s)) else None
+        | SChk (ICmd n u) => if teqb t u then Some (add_log s (LSend t) (SLock (ICmd n u)) (rpc_ s)) else None
         | SLog IKA => if teqb t t_probe then Some (add_log s (LSend t) (SLock IKA) (rpc_ s)) else None
         | _ => None
         end
     | SExit =>
-        (* the exit marker, or any item once the connection is lost (it is dropped, not written) *)
         match spc_ s with
         | SGot IExit => Some (set_spc s SDone)
-        | SGot _ => if g_lost s then Some (set_spc s SDone) else None
+        | _ => None
+        end
+    | SCheckConn b =>
+        (* `if message is _EXIT or not self.connected: stop`: for anything but the marker `connected` is read;
+           once the connection is lost the item is dropped (not written) and the thread ends *)
+        match spc_ s with
+        | SGot IExit => None
+        | SGot i =>
+            if Bool.eqb b (negb (g_lost s)) then Some (set_spc s (if b then SChk i else SDone)) else None
         | _ => None
         end
     | SLockAcq =>
